@@ -39,16 +39,14 @@ TtlEdge == {Dg(a) \o <<119>> \o Dg(<<b>>) \o <<100>> \o c \o <<115>> :
               a \in {<<7, 1, 0, 0>>, <<7, 1, 0, 1>>}, b \in 0..4,
               c \in {Dg(<<2, 8, 2, 4, 9, 5>>), Dg(<<2, 8, 2, 4, 9, 6>>), Dg(<<2, 3, 2, 9, 5>>), Dg(<<2, 3, 2, 9, 6>>),
                      Dg(<<8, 8, 7, 2, 9, 5>>), Dg(<<8, 8, 7, 2, 9, 6>>)}}
-TtlTexts == Ttl1 \cup Ttl2 \cup Ttl3 \cup TtlEdge
+(* the TTL universe is the union of these four parts, the range universe of InRangeShort and
+   InRangeLong; they are enumerated part by part (a \cup of two large sets is slow in TLC) *)
 
-(* texts that are one master-file token, for the entry points that tokenize *)
-ViaTtl3 == {p \o q \o r : p \in Pairs(QN3, QC3), q \in Pairs(QN3, QC3), r \in Pairs(QN3, QC3)}
-TtlViaTexts == {t \in Ttl1 \cup Ttl2 \cup ViaTtl3 \cup TtlEdge : t # <<>> /\ \A k \in 1..Len(t) : t[k] # 32}
-
-RECURSIVE Cat(_, _)
-Cat(S, k) == IF k = 0 THEN {<<>>} ELSE LET P == Cat(S, k - 1) IN P \cup {p \o s : p \in P, s \in S}
+RECURSIVE Exact(_, _)
+Exact(S, k) == IF k = 0 THEN {<<>>} ELSE {p \o s : p \in Exact(S, k - 1), s \in S}      \* exactly k tokens
 (* long texts over few tokens: several dashes / slashes ("1-2/1/2") need seven tokens *)
-RangeTexts == Cat(RTok, RLen) \cup Cat(RLongTok, 7)
+InRangeShort(x) == \E k \in 0..RLen : x \in Exact(RTok, k)
+InRangeLong(x) == \E k \in 0..7 : x \in Exact(RLongTok, k)
 RNumsAll == {Dg(<<0>>), Dg(<<1>>), Dg(<<2>>), Dg(<<5>>), Dg(<<1, 0>>), Dg(<<0, 0, 7>>),
              Dg(<<2, 1, 4, 7, 4, 8, 3, 6, 4, 7>>), Dg(<<2, 1, 4, 7, 4, 8, 3, 6, 4, 8>>),
              Dg(<<9, 9, 9, 9, 9, 9, 9, 9, 9, 9, 9, 9>>)}
@@ -85,4 +83,9 @@ MRTok == QRTok \cup {Dg(<<0, 0, 7>>), Dg(<<2, 1, 4, 7, 4, 8, 3, 6, 4, 7>>), <<16
 QRLong == {<<49>>, <<50>>} \cup RSeps
 TRLong == {<<48>>, <<49>>, <<50>>} \cup RSeps
 AllBits == 2..8
+
+(* texts that are one master-file token, for the entry points that tokenize *)
+ViaTtl3 == {p \o q \o r : p \in Pairs(QN3, QC3), q \in Pairs(QN3, QC3), r \in Pairs(QN3, QC3)}
+OneToken(S) == {t \in S : t # <<>> /\ \A k \in 1..Len(t) : t[k] # 32}
+(* the via universe is the union of OneToken(Ttl1), OneToken(Ttl2), OneToken(ViaTtl3), OneToken(TtlEdge) *)
 =============================================================================
